@@ -1,10 +1,16 @@
 """what MANIFEST.json claims, per property"""
-SOURCE_COMMITS = ["586d1d8"]
+SOURCE_COMMITS = ["586d1d8", "84b55ce"]
 NOT_APPLICABLE = {}
 PROOF_NOTE = ("Trusted: Lean 4.33 kernel and the axioms printed per theorem (propext, Quot.sound, Classical.choice at most); the statements in lean/Proofs/Props; "
               "the hand-written model is validated against the C by differential execution (bounded by generator quality), not derived from it; "
               "translator and harness themselves.")
 CHECKS = {
+ "C18": dict(category="proof",
+   text=("Theorems on the CAB model, for every file content: a listing accepted in strict mode is accepted identically in salvage mode; a data block the strict reader "
+         "delivers is delivered identically under any combination of ignore-checksum / ignore-blocksize. The lift through feeder, decoders and extract is checked by "
+         "model/implementation agreement and by the oracle: identical listing and bytes under all four SALVAGE x FIXMSZIP combinations for strict-valid cabinets; for the two listed "
+         "defect classes salvage lists exactly the remaining members / extracts the original bytes."),
+   note=PROOF_NOTE, technique="Lean 4 theorems (monotonicity of header and block readers in the relaxation flags, by induction) + differential runs over the four parameter combinations"),
  "C14": dict(category="proof",
    text=("Theorems on the model of cabd_find: the result is independent of the search-buffer size (every n>=1), the restart logic always advances "
          "(termination), and every reported cabinet parses as a cabinet at its reported offset (no false positives). Completeness (every planted cabinet is found) "
